@@ -685,12 +685,14 @@ def make_meta(prog, chown_permitted=True):
                        E('/e', 'File', size=None, cls=3, mode=ex.fresh_int('emode', 0, 0o7777), user=u, group=g, sec=es, nanos=en),
                        E('/f', 'File', size=ex.fresh_int('fsize', 1, 1 << 20), cls=1, mode=ex.fresh_int('fmode', 0, 0o7777), user=u, group=g, sec=fs_, nanos=fn_),
                        E('/l', 'Symlink', target='d/g', user=u, group=g, sec=ls, nanos=ln),
+                       E('/l.x', 'Dir', mode=0o755, user=u, group=g, sec=11, nanos=0),     # a sibling whose name merely starts with the link's name
                        E('/z0', 'File', size=0, cls='zero', mode=0o644, user=u, group=g, sec=8, nanos=0),
                        E('/z1', 'File', size=0, cls=4, mode=0o644, user=u, group=g, sec=9, nanos=0),
-                       E('/d/g', 'File', size=ex.fresh_int('gsize', 1, 1 << 20), cls=2, mode=ex.fresh_int('gmode', 0, 0o7777), user=u, group=g, sec=7, nanos=7)]
+                       E('/d/g', 'File', size=ex.fresh_int('gsize', 1, 1 << 20), cls=2, mode=ex.fresh_int('gmode', 0, 0o7777), user=u, group=g, sec=7, nanos=7),
+                       E('/l.x/h', 'File', size=4, cls=6, mode=0o644, user=u, group=g, sec=12, nanos=0)]
             # /z0: nothing but zero bytes; /z1: data, a run of zeros in the middle, data, and zeros at the end (sparse-file shapes)
-            entries[-3].parts = [('zero', ex.fresh_int('z0len', 1, 1 << 20))]
-            entries[-2].parts = [(4, ex.fresh_int('z1a', 1, 1 << 16)), ('zero', ex.fresh_int('z1b', 1, 1 << 16)), (4, ex.fresh_int('z1c', 1, 1 << 16)),
+            entries[-4].parts = [('zero', ex.fresh_int('z0len', 1, 1 << 20))]
+            entries[-3].parts = [(4, ex.fresh_int('z1a', 1, 1 << 16)), ('zero', ex.fresh_int('z1b', 1, 1 << 16)), (4, ex.fresh_int('z1c', 1, 1 << 16)),
                                  ('zero', ex.fresh_int('z1d', 1, 1 << 16))]
             ex.assume((entries[1].mode / 64) % 8 == 7)      # the directory stays writable/searchable for its owner
             put_band(ex, st, 0, entries)
